@@ -77,6 +77,18 @@ fn name_plain_for(p: &str, r: &str, s: &str, keyword: bool) -> bool {
     true
 }
 
+/// R7RS 7.1.1: `+i`, `-i` and the <infnan> spellings are numbers, not peculiar identifiers (this data model
+/// has no such numbers, so the independent reader rejects them; the crate reads them as symbols).
+pub fn has_reserved_numeric_name(v: &Value) -> bool {
+    let bad = |s: &str| matches!(s, "+i" | "-i" | "+inf.0" | "-inf.0" | "+nan.0" | "-nan.0");
+    match v {
+        Value::Symbol(s) | Value::Keyword(s) => bad(s),
+        Value::Cons(c) => has_reserved_numeric_name(c.car()) || has_reserved_numeric_name(c.cdr()),
+        Value::Vector(xs) => xs.iter().any(has_reserved_numeric_name),
+        _ => false,
+    }
+}
+
 pub fn nesting(v: &Value) -> usize {
     match v {
         Value::Cons(c) => {
@@ -809,6 +821,11 @@ fn check_inner(line: &str, res: &str, t: &[&str], mut m: Vec<String>) -> Vec<Str
             let f: Vec<&str> = res.split_whitespace().collect();
             if f.len() == 3 && f[0] == "R" {
                 if f[1] != f[2] { m.push(format!("FAIL C08 option getters {} disagree with the reader's behaviour {}", f[1], f[2])); }
+                // the two presets every family uses by name are what the crate's constructors return
+                if t.len() == 3 && ((t[2] == "elisp" && f[1] != R_ELISP) || (t[2] == "default" && f[1] != R_DEFAULT)) {
+                    m.push(format!("FAIL C08 parse::Options::{}() is {} but the harness's constant for it is another option set", t[2], f[1]));
+                    m.push(format!("FAIL C02 parse::Options::{}() is {} but the harness's constant for it is another option set", t[2], f[1]));
+                }
                 if t.len() > 3 {
                     let prev = crate::ops::exec(&t[..t.len() - 1].join(" "));
                     let pf: Vec<&str> = prev.split_whitespace().collect();
